@@ -65,6 +65,14 @@ SCRIPTS['q'] = ('(declare-const a Int)(declare-const b Int)'
                 '(declare-const c Int)(define-fun k () Int 3)'
                 '(assert (> (+ a b) (* c k)))(check-sat)')
 
+# function symbols next to several variables of their result sort; children
+# of equal size
+SCRIPTS['r'] = ('(declare-fun f (Int) Int)(declare-fun g (Int Int) Int)'
+                '(declare-const a Int)(declare-const b Int)'
+                '(declare-const c Int)'
+                '(assert (> (+ (f a) (g b c)) (* (g a b) (f c))))'
+                '(assert (= (+ a b) (+ c a)))(check-sat)')
+
 MUTSETS = {
     'consts': ['Constants'],
     'late': ['SimplifySymbolNames', 'ReplaceByVariable'],
@@ -136,6 +144,7 @@ KEYS = {
     'n': ['|x|', '!', ':named', 'a1', '>', 'set-logic'],
     'p': ['x', '>', '<', '1', '5', 'check-sat'],
     'q': ['a', 'b', 'c', 'k', '>', '*'],
+    'r': ['f', 'g', 'a', 'b', '+', '*'],
 }
 
 
